@@ -1,6 +1,7 @@
 """C03 — unique and set indexes mirror entity state; uniqueness is enforced."""
 from . import common
 from . import c03_c06_lib as lib
+from . import universe
 
 MODULE = "StorageModel.Properties.C03"
 THEOREMS = ["inv_init", "inv_step", "inv_tx", "inv_reachable", "unique_index_exact", "nullable_unique_index_exact",
@@ -44,6 +45,16 @@ def stats_of(case, impl):
         inc("histories_indexes_registered_%d" % len(regs))
         if len(regs) == 3 and order != "nar":
             inc("histories_all_indexes_other_registration_order")
+    structured = False
+    for op in _ops(case):
+        for w in op.split(":")[2:5]:
+            for x in w.split("+"):
+                if x not in ("~", ".", "-", "*") and all(c in "0123456789abcdef" for c in x) and len(x) % 2 == 0:
+                    b = bytes.fromhex(x)
+                    if any(c in b for c in b",;|+ /\x00:=#[]\"'\x05\x07") or b in (b"indexes", b"things", b"ext", b"name", b"alias", b"roles", b"tag"):
+                        structured = True
+    if structured:
+        inc("histories_with_structured_values")
     has_ext = set()
     for op in _ops(case):
         f = op.split(":")
@@ -114,7 +125,13 @@ RULE = ("random histories (seeded) of 5-24 (quick) / 5-40 (thorough) transaction
         "name equal, overridden, re-keyed, both, crossed overrides, crossed keys) x base path of 1-5 elements (a sixth with a "
         "repeated element, a quarter handed to NewBaseStore as a slice with 1-3 spare capacity) x registered indexes (half "
         "name,alias,roles; a quarter all three in another order; a quarter a proper subset in some order, incl. none), a "
-        "sixth of their patches naming a key or symbol name instead of the caller-side name; thorough adds all 111,150 histories of length <= 4 over 2 ids x 2 values with an "
+        "sixth of their patches naming a key or symbol name instead of the caller-side name; a third of all random histories draw "
+        "their unique-index and role values (a quarter of them also the ids) from one of 16 families of structured values (a composite "
+        "next to its parts: a b a,b b,a / ab ba / a;b a|b a+b 'a b' a/b a\\0b a:b a=b a#b; , a, ,a; brackets, quotes; the typed-value "
+        "prefixes 0x05 0x07; the bucket and field names indexes things ext u name alias roles tag), a third of their role updates "
+        "splitting a composite into its parts, merging the set into one composite or re-ordering it; every tier adds, per family, all "
+        "(old set -> new set) pairs over its first 3 (quick) / 4 (thorough) members on one entity (patch / full update / through the "
+        "child store) next to a second holder, and all ordered hand-overs of two members between two entities' name and alias; thorough adds all 111,150 histories of length <= 4 over 2 ids x 2 values with an "
         "18-letter operation alphabet and all 69,904 histories of length <= 4 over 2 ids with a 16-letter alphabet of parent / "
         "child operations under the all-names-differ schema with a three-element base path and registration order "
         "roles,alias,name; a history is non-trivial when it has >= 2 committed "
@@ -125,13 +142,13 @@ ASSUMPTIONS = [
     "bbolt: a bucket is a finite map with keys in byte order, a transaction applies all of its writes or none (rollback is modelled, not verified)",
     "the entity strategy of the harness store writes name via SetString, alias via SetStringP, roles via SetStringList (after WithFieldOverrides where the schema says so) and raises no error of its own; the child strategy persists the parent's fields through GetParentContext, then its own field",
     "the schema's symbol names are pairwise distinct, as are its stored keys (the model keeps one map per index whatever the names; index_paths_distinct then makes the index bucket paths pairwise distinct)",
-    "base path elements, ids, values and names contain no '/' and differ from the bucket names indexes / things / ext",
+    "the whole-database dump is a raw recursion over the bbolt buckets with every path element encoded on its own (ids and values may contain any byte, also '/'); schema names and base path elements are letters",
     "the parent store's child-store strategy maps an entity with child data to its stored child entity with the shared fields replaced (boltz/manager_store_test.go)",
-    "ids, values and bucket names of the universe contain no '/' (boltz.Traverse builds paths by string concatenation)",
 ]
 
 
 def run(ctx, replay_cases=None):
     return lib.history_flow(ctx, "c03", MODULE, THEOREMS, MATCHERS, RULE, stats_of, nontrivial, ASSUMPTIONS,
                             common.BASE_TRUST + ["bbolt (ordered buckets, atomic commit/rollback) — modelled, exercised by the dump comparison after every transaction"],
-                            replay_cases=replay_cases)
+                            replay_cases=replay_cases,
+                            post_cases=lambda c: universe.universe_stream(c, ["C03"]))
